@@ -10,12 +10,18 @@
       every quote column (single-line source form), and single-quoted / unquoted text is verbatim;
     * `C08_indent`: the code's column stripping (tabs = 8 columns, a tab across the column leaves blanks)
       equals the specification's, for every line and every quote column ≥ 1.
-  Not proved: the multi-line composition (trim ∘ substitute over all layouts) — held by stream yarg
+    * `C08_layout`: for every double-quoted text without a backslash — any number of lines, LF or CRLF,
+      blank lines, blanks and tabs before and behind the text of a line, any quote column ≥ 1 — the code's
+      decoder (`trimWhitespace`: per-line loop with its index bookkeeping, CR handling and empty-line cases)
+      yields exactly what the specification reads off the source (trailing blanks before a line break and
+      the indentation of continuation lines up to the quote column removed, a tab counting eight).
+  Not proved: the composition of layout with escapes in one multi-line text — held by stream yarg
   (value × quoting × layout triples on the real parser, compared with model and with `Spec.decodeArg`).
   The order of trimming and substitution is not fixed by RFC 6020: texts with \n/\t escapes next to real or
   escaped line breaks are compared implementation-vs-model only (Spec.orderSensitive).
 -/
 import YV.Proofs.YArg
+import YV.Proofs.YLayout
 namespace YV.C08
 open YV YV.Y YV.YS
 
@@ -25,6 +31,14 @@ theorem C08_escape (s : Bytes) (h : hasEscape [114] s = false) : escapeSubst s =
 theorem C08_indent (col : Nat) (hc : col ≥ 1) (line : Bytes) :
     trimLeadWS col 0 line = stripColumns col 0 line :=
   trimLeadWS_eq col hc line 0 (by omega)
+
+/-- **C08 (layout).** -/
+theorem C08_layout (col : Nat) (hc : col ≥ 1) (raw : Bytes) (h92 : ∀ x ∈ raw, x ≠ 92) :
+    trimWhitespace col raw = decodeDQ col raw := trimWhitespace_eq_decodeDQ col hc raw h92
+
+/-- non-vacuity: a three-line text, CRLF and LF, a tab across the quote column, trailing blanks, a blank line -/
+example : decodeDQ 4 [97, 32, 32, 13, 10, 32, 32, 9, 98, 32, 10, 10, 32, 32, 32, 32, 32, 99] =
+    [97, 13, 10, 32, 32, 32, 32, 32, 32, 98, 10, 10, 32, 99] := by decide
 
 theorem splitLF_go_no10 (s cur : Bytes) (acc : List Bytes) (h : ∀ x ∈ s, x ≠ 10) :
     splitLF.go cur acc s = (acc.reverse ++ [cur.reverse ++ s]) := by
